@@ -54,3 +54,10 @@ impl Iterator for Rng {
         Some(self.random())
     }
 }
+
+#[cfg(feature = "verif-hooks")]
+impl Rng {
+    pub(crate) fn verif_state(&self) -> u64 {
+        self.seed
+    }
+}
